@@ -31,6 +31,11 @@ pub fn replay(case: &J, lifts: &[Lift]) -> J {
         let s = Session::new();
         let a = mv::src(&case["a"], *lift);
         let b = mv::src(&case["b"], *lift);
+        // the same two values reached through names: when they are one value, both names hold the same heap cell, and a
+        // container holding the name twice shares that cell - none of which may matter
+        let aliased = case["a"] == case["b"];
+        let _ = s.eval(&format!("zza = {a}"));
+        let _ = s.eval(&if aliased { "zzb = zza".to_string() } else { format!("zzb = {b}") });
         for op in OPS {
             let obs = observe(&s, &a, &b, op);
             evals += 1;
@@ -38,6 +43,12 @@ pub fn replay(case: &J, lifts: &[Lift]) -> J {
             if obs != exp {
                 mism.push(json!({"op": op.0, "lift": lift.name(), "exp": exp, "obs": obs,
                                  "src": format!("{} {} {}", a, op.1, b)}));
+            }
+            let obs2 = observe(&s, "zza", "zzb", op);
+            evals += 1;
+            if obs2 != exp {
+                mism.push(json!({"op": op.0, "lift": lift.name(), "exp": exp, "obs": obs2,
+                                 "src": format!("zza = {a} ; zzb = {} ; zza {} zzb", if aliased { "zza" } else { b.as_str() }, op.1)}));
             }
         }
     }
